@@ -271,7 +271,8 @@ def skeletons(alpha, kinds=("text", "text", "var", "block", "comment", "raw", "p
 # ------------------------------------------------------------------------------------------
 # line skeletons
 
-INDENTS = ["", "", " ", "  ", "\t", " \t", "    ", "\x0b "]
+INDENTS_PLAIN = ["", "", " ", "  ", "\t", " \t", "    "]
+INDENTS_VT = INDENTS_PLAIN + ["\x0b "]  # \v is accepted before a line-statement prefix; lstrip_blocks of \v is not documented
 LINE_STMTS = ["set z = 1", "set z = [1, 2]", "set z = v"]
 LINE_PAIRS = [("if true", "endif"), ("if v", "endif"), ("for q in [1]", "endfor"), ("with", "endwith"), ("if v:", "endif"),
               ("for q in [1]:", "endfor")]
@@ -284,7 +285,8 @@ LINE_VARS = [(e, v) for e, v in VAR_EXPRS]
 BLANKS = ["", " ", "  \t", "\x0c"]
 
 
-def line_skeletons(max_lines=7, foreign=False, blank=False):
+def line_skeletons(max_lines=7, foreign=False, blank=False, vt_indent=False):
+    INDENTS = INDENTS_VT if vt_indent else INDENTS_PLAIN
     inline_text = _texts(ALPHA_X_INLINE, 3).map(lambda s: ["text", s])
     var = st.tuples(st.sampled_from(MODS2), st.sampled_from(MODS2), _padded(st.sampled_from(LINE_VARS), PADS)).map(
         lambda t: ["var", t[0], t[1], t[2][0] + t[2][1][0] + t[2][2], t[2][1][1]])
@@ -421,3 +423,21 @@ def fragment_soup(syn, max_frags=14):
         if syn.get(k):
             frags += [syn[k], "\n" + syn[k], "\n  " + syn[k] + " ", syn[k] + "-"]
     return st.lists(st.sampled_from(frags), min_size=1, max_size=max_frags).map("".join)
+
+
+# ------------------------------------------------------------------------------------------
+# driver helper shared by C11 C12 C13 C39
+
+def hyp_chunks(strategy, check_case, ctx, total, rec, tag, chunk=4000):
+    """core.hyp_shard in chunks of ``chunk`` examples (each chunk is its own seeded Hypothesis test, so the
+    example tree Hypothesis keeps for de-duplication stays small in the thorough tier); stops at the first
+    chunk that found a violation."""
+    from vt import core
+
+    i = 0
+    while total > 0 and not rec.violations:
+        n = min(chunk, total)
+        core.hyp_shard(strategy, check_case, ctx, n, rec=rec, tag="%s.%d" % (tag, i))
+        total -= n
+        i += 1
+    return rec
